@@ -400,7 +400,11 @@ fn encode_subframe(
 
         let too_short = samples.len() < MIN_BLOCK_SIZE_FOR_PREDICTION;
         let fixed = if !too_short && config.use_fixed {
+            // The order selection in `fixed_lpc` may rely on an estimated
+            // size, so the candidate is only admitted if it really is smaller
+            // than the verbatim encoding.
             fixed_lpc(config, samples, bits_per_sample, baseline_bits)
+                .filter(|x| x.count_bits() < baseline_bits)
         } else {
             None
         };
